@@ -177,6 +177,7 @@ class Interp(object):
     self.old_env = {}
     self.uf_cache = {}
     self.in_ghost = False
+    self.set_origin = {}
     from . import models
     self.models = models
 
@@ -313,8 +314,17 @@ class Interp(object):
     if z3.is_false(t): return False
     return SBool(t)
 
+  def unwrap(self, v, node=None, op="<"):
+    """T|None used where a T is needed: None raises TypeError (code mode) / is ignored (spec)."""
+    if isinstance(v, SOpt):
+      if not self.spec and self.ctx.decide(v.isnone):
+        self.raise_(TypeError, "unsupported operand type(s) for %s: 'NoneType'" % op, node=node)
+      return v.val
+    return v
+
   def less(self, a, b, node=None):
     """a < b"""
+    a, b = self.unwrap(a, node), self.unwrap(b, node)
     if not is_symbolic(a) and not is_symbolic(b):
       try:
         return a < b
@@ -341,8 +351,11 @@ class Interp(object):
     self.unsupported("< between %r and %r" % (a, b), node)
 
   def contains(self, c, x, node=None):
+    if isinstance(c, (SSet, SMap)) and isinstance(x, SOpt) and not isinstance(c.key, V.Opt):
+      return z3.And(z3.Not(x.isnone), c.has(x.val))     # None is not a member of a set of T
     if isinstance(c, SSet): return c.has(x)
     if isinstance(c, SMap): return c.has(x)
+    if isinstance(c, self.models.SeqSet): c = c.seq
     if isinstance(c, SSeq):
       j = self.ctx.const("in!j", z3.IntSort())
       return z3.Exists([j], z3.And(j >= 0, j < c.length, self._bt(self.eq(c.at(j), x))))
@@ -388,6 +401,10 @@ class Interp(object):
         self.unsupported("operator %s" % type(op).__name__, node)
       except Exception as e:       # native Python semantics, including its exceptions
         self.raise_(type(e), *e.args, node=node)
+    if isinstance(op, ast.Mod) and isinstance(a, str):
+      # "format" % values: only the fact that it is a str matters in the subset (messages)
+      return SOpq(self.ctx.const("fmt", V.opaque_sort("StrMsg")), "StrMsg")
+    a, b = self.unwrap(a, node, "+"), self.unwrap(b, node, "+")
     if isinstance(op, ast.Add) and isinstance(a, (SSeq, list, tuple)) \
         and isinstance(b, (SSeq, list, tuple)):
       return self.models.seq_concat(self, a, b)
@@ -539,6 +556,7 @@ class Interp(object):
     if isinstance(op, ast.Gt): return self.less(b, a, node)
     if isinstance(op, (ast.LtE, ast.GtE)):
       if isinstance(op, ast.GtE): a, b = b, a
+      a, b = self.unwrap(a, node, "<="), self.unwrap(b, node, "<=")
       if _is_num(a) and _is_num(b) and (is_symbolic(a) or is_symbolic(b)):
         return self.int_term(a) <= self.int_term(b)
       if not is_symbolic(a) and not is_symbolic(b):
@@ -646,6 +664,10 @@ class Interp(object):
         return base.at(i + n)
       self.raise_(IndexError, "list index out of range", node=node)
     if isinstance(base, SMap):
+      if isinstance(idx, SOpt) and not isinstance(base.key, V.Opt):
+        if not (self.spec or self.in_ghost) and self.ctx.decide(idx.isnone):
+          self.raise_(KeyError, None, node=node)
+        idx = idx.val
       if self.spec or self.in_ghost: return base.at(idx)
       if self.ctx.decide(base.has(idx)):
         return base.at(idx)
@@ -1200,6 +1222,13 @@ class Interp(object):
     if it is not None:
       k = ctx.const("%s_i" % lname.replace(".", "_"), z3.IntSort())
       ctx.assume(k >= 0)
+      if isinstance(node, ast.For) and (_names_in(node.iter) & modified):
+        # the loop mutates what it iterates over: Python's list iterator reads the *current*
+        # list at position k, so the iterable is re-read from the havocked state (the
+        # invariant has to say what the not-yet-visited part looks like).
+        if idx_name: fr.store(idx_name, SInt(k))
+        it = self.models.as_iterable(self, self.ev(node.iter, fr), node)
+        if isinstance(it, list): self.unsupported("mutated iterable became concrete", node)
       ctx.assume(k <= it.length)
       if idx_name: fr.store(idx_name, SInt(k))
     def assume_invs():
@@ -1412,6 +1441,10 @@ def _walk_same_scope(stmts):
     for c in ast.iter_child_nodes(n):
       if isinstance(c, (ast.FunctionDef, ast.Lambda, ast.ClassDef, ast.AsyncFunctionDef)): continue
       stack.append(c)
+
+
+def _names_in(e):
+  return {n.id for n in ast.walk(e) if isinstance(n, ast.Name)}
 
 
 def _target_names(t):
